@@ -62,6 +62,22 @@ def scene_case(spec):
             out["prop_failures"].append(dict(test="zero_exact", stage=name, case=tag,
                                              what="m = 0 does not reproduce the unattenuated (attenuation never set) result exactly"))
             break
+    # the unattenuated object r0 after its run, given the attenuation m and run again (bake, source, exchange
+    # with recalculation): every leg must now carry exp(-m d) -- the same as the object built with m
+    r0.set_air_attenuation(pf.FrequencyData(cfg["att"], cfg["freqs"]))
+    r0.bake_geometry()
+    i_re = P.impl_pipeline(r0, src, c, dt, dur, K, recs, direct=True)
+    for name in ["etc", "patchwise", "mono"]:
+        if not np.array_equal(i_re[name], impl[name]):
+            dev = float(np.abs(np.asarray(i_re[name]) - np.asarray(impl[name])).max())
+            out["prop_failures"].append(dict(
+                test="reused_object_new_attenuation", stage=name, case=tag, max_abs_dev=dev,
+                what="an object first simulated with m = 0, then given m = %s, re-baked and re-run, does not give the "
+                     "result of an object built with that m (stage %s, max abs deviation %.3g): some leg keeps the old "
+                     "attenuation" % (cfg["att"].tolist(), name, dev)))
+            break
+    r0 = S.build(cfg0)
+    P.impl_pipeline(r0, src, c, dt, dur, K, recs, direct=True)
     centers = radi.patches_center
     V = radi.visibility_matrix
     n = radi.n_patches
